@@ -2636,6 +2636,53 @@ impl Melda {
     }
 }
 
+/// Verification hooks: read-only accessors compiled only with the `verif-hooks` feature.
+#[cfg(feature = "verif-hooks")]
+impl Melda {
+    /// Returns the load status of every known delta block
+    /// ("pending", "ready", "applied" or "blocked"), keyed by the block identifier.
+    pub fn verif_block_status(&self) -> BTreeMap<String, &'static str> {
+        self.deltas
+            .read()
+            .expect("cannot_acquire_deltas_for_reading")
+            .iter()
+            .map(|(id, d)| {
+                let status = match d.read().expect("cannot_acquire_delta_for_reading").status {
+                    Status::Pending => "pending",
+                    Status::Ready => "ready",
+                    Status::Applied => "applied",
+                    Status::Blocked => "blocked",
+                };
+                (id.to_string(), status)
+            })
+            .collect()
+    }
+
+    /// Returns the recorded revisions of an object as (revision, parent, staged) triples,
+    /// sorted by revision string, or None if the object is unknown.
+    pub fn verif_tree(&self, uuid: &str) -> Option<Vec<(String, Option<String>, bool)>> {
+        let docs_r = self
+            .documents
+            .read()
+            .expect("cannot_acquire_documents_for_reading");
+        let rt = docs_r.get(uuid)?;
+        let rt_r = rt.lock().expect("cannot_acquire_revision_tree_for_reading");
+        let mut v: Vec<(String, Option<String>, bool)> = rt_r
+            .get_revisions()
+            .iter()
+            .map(|(r, e)| {
+                (
+                    r.to_string(),
+                    e.get_parent().as_ref().map(|p| p.to_string()),
+                    e.is_staging(),
+                )
+            })
+            .collect();
+        v.sort();
+        Some(v)
+    }
+}
+
 #[cfg(test)]
 mod tests {
 
